@@ -28,6 +28,9 @@ type Outcome struct {
 	// Nontrivial: the run exercised the property's interesting region (rule
 	// stated per property in the evidence).
 	Nontrivial bool
+	// Detached: threads the scheduler had to detach during the run (part of the
+	// interleaving was then decided by the real scheduler).
+	Detached int
 	// Steps is the amount of simulated activity (scheduler steps / operations).
 	Steps int
 	// Trace is a decoded, human-readable description of the run.
